@@ -1,8 +1,16 @@
 ----------------------------- MODULE LexStrTrace -----------------------------
-(* C12: judges records produced by the real Escape/Unescape/EncodeName/DecodeName.   *)
-(* A record that fails is printed as a BAD payload with the names of the failed      *)
-(* requirements; INFO payloads are interoperability observations (a conforming       *)
-(* reader, RefUnescape / RefDecodeName, recovers the input), not verdicts.           *)
+(* C12: judges records produced by the real code.  A record that fails is printed as a *)
+(* BAD payload with the names of the failed requirements; INFO payloads are             *)
+(* interoperability observations (a conforming reader, RefUnescape / RefDecodeName,     *)
+(* recovers the input), not verdicts.  Record kinds:                                    *)
+(*  "bytes" inp -> esc = Escape(inp), un = Unescape(esc), enc = EncodeName(inp),        *)
+(*          dec = DecodeName(enc); praw/pok/prest = what the real object parser cuts    *)
+(*          out of "(" esc ")" as literal string token, and how many bytes it left      *)
+(*  "text"  cps -> u16 = EncodeUTF16String, esc = EscapedUTF16String, un = Unescape(esc),*)
+(*          praw/pok/prest as above, lit = StringLiteralToString(esc) as UTF-8           *)
+(*  "file"  inp = a name written into a real PDF as dictionary key (role "key") or name *)
+(*          value (role "value") of an object that sits in an object stream (via        *)
+(*          "objstm") or is a plain object (via "plain"); got = the name read back      *)
 EXTENDS Lex, TLC, Json
 Trace == ndJsonDeserialize("records.ndjson")
 VARIABLE l
@@ -11,14 +19,27 @@ Next == l <= Len(Trace) /\ l' = l + 1
 Spec == Init /\ [][Next]_l
 
 NoNul(b) == \A i \in 1..Len(b) : b[i] # 0
-Fails(r) ==
+(* the parser must cut exactly the escaped form out of "(" esc ")" whenever that is one well formed token *)
+TokenBad(r) == ~r.eerr /\ Balanced(r.esc) /\ (~r.pok \/ r.praw # r.esc \/ r.prest # 0)
+FailsBytes(r) ==
   (IF r.eerr \/ r.uerr \/ r.un # r.inp THEN {"escape-roundtrip"} ELSE {}) \cup
   (IF ~r.eerr /\ ~EscapeOK(r.esc) THEN {"escape-parens"} ELSE {}) \cup
+  (IF TokenBad(r) THEN {"literal-token"} ELSE {}) \cup
   (IF NoNul(r.inp) /\ ~NameCharOK(r.enc) THEN {"name-chars"} ELSE {}) \cup
   (IF NoNul(r.inp) /\ (r.derr \/ r.dec # r.inp) THEN {"name-roundtrip"} ELSE {})
+FailsText(r) ==
+  LET t == TextBytes(r.cps) IN
+  (IF r.u16 # t THEN {"text-encode"} ELSE {}) \cup
+  (IF r.eerr \/ r.uerr \/ r.un # t THEN {"text-escape-roundtrip"} ELSE {}) \cup
+  (IF ~r.eerr /\ ~EscapeOK(r.esc) THEN {"text-escape-parens"} ELSE {}) \cup
+  (IF TokenBad(r) THEN {"text-literal-token"} ELSE {}) \cup
+  (IF r.lerr \/ r.lit # Utf8Bytes(r.cps) THEN {"text-read"} ELSE {})
+FailsFile(r) == IF r.gerr \/ r.got # r.inp THEN {"name-file-roundtrip"} ELSE {}
+Fails(r) == CASE r.kind = "bytes" -> FailsBytes(r) [] r.kind = "text" -> FailsText(r) [] r.kind = "file" -> FailsFile(r)
 Info(r) ==
-  (IF ~r.eerr /\ RefUnescape(r.esc) # r.inp THEN {"ref-unescape"} ELSE {}) \cup
-  (IF NoNul(r.inp) /\ RefDecodeName(r.enc) # r.inp THEN {"ref-decode-name"} ELSE {})
+  IF r.kind = "file" THEN {} ELSE
+  (IF ~r.eerr /\ RefUnescape(r.esc) # (IF r.kind = "text" THEN TextBytes(r.cps) ELSE r.inp) THEN {"ref-unescape"} ELSE {}) \cup
+  (IF r.kind = "bytes" /\ NoNul(r.inp) /\ RefDecodeName(r.enc) # r.inp THEN {"ref-decode-name"} ELSE {})
 
 Judge == l <= Len(Trace) =>
   LET r == Trace[l] f == Fails(r) i == Info(r) IN
